@@ -220,4 +220,107 @@ theorem attrsOf_nodup (d : Dict) (h : AttrNamesUnique d) (n : Nat) : ((attrsOf d
   | none => simp
   | some e => exact h e (List.mem_of_find?_eq_some hf)
 
+
+/-! ### `subtypesIterator`: the candidate entities are exactly the entities below the inverted entity -/
+
+inductive StarG (next : Nat → List Nat) : Nat → Nat → Prop
+  | refl {n} : StarG next n n
+  | head {n s x} : s ∈ next n → StarG next s x → StarG next n x
+
+theorem StarG.tail {next : Nat → List Nat} {a b c : Nat} (h : StarG next a b) (hc : c ∈ next b) : StarG next a c := by
+  induction h with
+  | refl => exact StarG.head hc StarG.refl
+  | head h1 _ ih => exact StarG.head h1 (ih hc)
+
+theorem SupStar.tail {d : Dict} {a b c : Nat} (h : SupStar d a b) (hc : c ∈ supsOf d b) : SupStar d a c := by
+  induction h with
+  | refl => exact SupStar.head hc SupStar.refl
+  | head h1 _ ih => exact SupStar.head h1 (ih hc)
+
+theorem levelsG_sound (next : Nat → List Nat) : ∀ (f : Nat) (l : List Nat) (x : Nat), x ∈ levelsG next f l → ∃ y ∈ l, StarG next y x := by
+  intro f
+  induction f with
+  | zero => intro l x h; simp [levelsG] at h
+  | succ f ih =>
+    intro l x h
+    cases l with
+    | nil => simp [levelsG] at h
+    | cons a t =>
+      simp only [levelsG, List.mem_append] at h
+      rcases h with h | h
+      · exact ⟨x, h, StarG.refl⟩
+      · obtain ⟨y, hy, hs⟩ := ih _ x h
+        rw [List.mem_flatMap] at hy
+        obtain ⟨z, hz, hyz⟩ := hy
+        exact ⟨z, hz, StarG.head hyz hs⟩
+
+theorem levelsG_complete (next : Nat → List Nat) (rank : Nat → Nat) (hr : ∀ n s, s ∈ next n → rank s < rank n) :
+    ∀ (f : Nat) (l : List Nat), (∀ y ∈ l, rank y < f) → ∀ y ∈ l, ∀ x, StarG next y x → x ∈ levelsG next f l := by
+  intro f
+  induction f with
+  | zero => intro l hl y hy; exact absurd (hl y hy) (by omega)
+  | succ f ih =>
+    intro l hl y hy x hs
+    cases l with
+    | nil => cases hy
+    | cons a t =>
+      simp only [levelsG, List.mem_append]
+      cases hs with
+      | refl => exact Or.inl hy
+      | head hsup hrest =>
+        rename_i s
+        right
+        have hsl : s ∈ (a :: t).flatMap next := List.mem_flatMap.mpr ⟨y, hy, hsup⟩
+        apply ih _ _ s hsl x hrest
+        intro z hz
+        rw [List.mem_flatMap] at hz
+        obtain ⟨w, hw, hzw⟩ := hz
+        have := hr w z hzw
+        have := hl w hw
+        omega
+
+/-- entity names are declared once -/
+def NamesUnique (d : Dict) : Prop := (d.map (·.name)).Nodup
+
+/-- the subtype lists are the inverse of the supertype lists -/
+theorem mem_subsOf (d : Dict) (hn : NamesUnique d) (n s : Nat) : s ∈ subsOf d n ↔ n ∈ supsOf d s := by
+  unfold subsOf supsOf Dict.ent
+  constructor
+  · intro h
+    rw [List.mem_map] at h
+    obtain ⟨e, he, hes⟩ := h
+    rw [List.mem_filter] at he
+    have hfind : d.find? (fun x => x.name == s) = some e := by
+      cases hf : d.find? (fun x => x.name == s) with
+      | none =>
+        rw [List.find?_eq_none] at hf
+        exact absurd (by simpa using hes) (hf e he.1)
+      | some e' =>
+        have he' := List.mem_of_find?_eq_some hf
+        have hn' : e'.name = s := by simpa using List.find?_some hf
+        have : e' = e := eq_of_nodup_keys (fun x : EntityD => x.name) d hn e' he' e he.1 (by rw [hn', hes])
+        rw [this]
+    simp only [hfind]
+    simpa using he.2
+  · intro h
+    cases hf : d.find? (fun x => x.name == s) with
+    | none => simp [hf] at h
+    | some e =>
+      simp only [hf] at h
+      rw [List.mem_map]
+      refine ⟨e, ?_, by simpa using List.find?_some hf⟩
+      rw [List.mem_filter]
+      exact ⟨List.mem_of_find?_eq_some hf, by simpa using h⟩
+
+theorem starSub_iff_supStar (d : Dict) (hn : NamesUnique d) (over k : Nat) : StarG (subsOf d) over k ↔ SupStar d k over := by
+  constructor
+  · intro h
+    induction h with
+    | refl => exact SupStar.refl
+    | head h1 _ ih => exact SupStar.tail ih ((mem_subsOf d hn _ _).mp h1)
+  · intro h
+    induction h with
+    | refl => exact StarG.refl
+    | head h1 _ ih => exact StarG.tail ih ((mem_subsOf d hn _ _).mpr h1)
+
 end StepModel.LazyRefs
